@@ -308,20 +308,23 @@ let run_mode () = run_driver (fun toks impl ->
      | None -> ("skip unknown-type", "na")
      | Some (s, r) ->
        (match impl with
-        | ["ok"; h] ->
+        | "ok" :: h :: given ->
           let bs = bytes_of_hex h in
+          (* tx cases carry the values handed to the builder (inputs, collateral inputs, requested outputs) *)
+          let gh = (match given with [g] -> Some g | _ -> None) in
           (* model result.  Route 1 (head `ok`): the bytes are enc s v for the schema-valid value v = dec s bytes, so the
              theorems about enc speak about them.  Route 2 (head `ok-tree`): the schema model does not cover this value
              (a legacy output WITH datum hash inside a body, or a value outside the schema's bounds built through a
              non-validating constructor); then only the independent reader ties them: parse_exact + shortest re-printing *)
           let m = (match dec s bs with
-              | Ok (v, []) when wfv s v -> "ok " ^ hex_of_bytes (enc s v)
+              | Ok (v, []) when wfv s v -> "ok " ^ hex_of_bytes (enc s v) ^ (match gh with Some g -> " " ^ g | None -> "")
               | _ -> (match parse_exact bs with
-                  | Ok it -> "ok-tree " ^ hex_of_bytes (encode_item it)
+                  | Ok it -> "ok-tree " ^ hex_of_bytes (encode_item it) ^ (match gh with Some g -> " " ^ g | None -> "")
                   | _ -> "unparseable")) in
           let verdict =
-            (match int_of_n (judge_class r bs) with
+            (match int_of_n (match gh with Some g -> judge_class_tx r bs (bytes_of_hex g) | None -> judge_class r bs) with
              | 0 -> "holds"
+             | 3 -> "fails:C03-builder-echoes-degenerate-given-values"
              | c -> if starts_with "nv_" label then "na"      (* non-validating constructor: outside the quantifier *)
                else if c = 1 then "fails:C03-mint-quantity-outside-int64" else "fails:-") in
           (m, verdict)
